@@ -138,6 +138,12 @@ def run(ctx):
     snappy_rule(ctx)
     errprop(ctx)
     ioerr_rule(ctx)
+    # a block whose object count disagrees with its contents is an error under every codec: what is left of the block (or
+    # of its decompressed form) after the announced objects were read is checked (shared with C05)
+    from .c05 import consumed
+    consumed(ctx)
+    eof_is_io_rule(ctx)
+
     # the reading primitives hand over exactly the bytes asked for or fail (shared with C03 / C11): a short read must
     # not become a shorter value
     from .c11 import slice_rule, varint_rule, fixedbuf_rule, shortread_rule
@@ -148,6 +154,35 @@ def run(ctx):
     erronce(ctx)
     loops(ctx, nx)
     panics(ctx)
+
+
+
+def eof_is_io_rule(ctx):
+    """Running out of bytes is the same thing for a slice as for a reader: the error says so the same way (it carries an
+    io::ErrorKind::UnexpectedEof).  The container reader latches "report once, then end of stream" on exactly that; an
+    end-of-slice error without it is repeated once per object the block header claims (a corruptible 63-bit number)."""
+    f = ctx.f
+    from .c03 import fn_by_label
+    b = fn_by_label(f, 'de::error::DeError::unexpected_eof')
+    if b is None:
+        # no dedicated constructor: nothing to judge here (the conversion sites are judged by IOERR)
+        ctx.ob('IOERR', 'slice-eof-is-an-io-error', True, None, 'no DeError::unexpected_eof constructor', nontrivial=False)
+        return
+    ctx.touched(b)
+    io_ = any(strip_generics(cname(t)).endswith(('DeError::custom_io', 'DeError::io')) for bb, t in b.calls() if not b.is_cleanup(bb))
+    kind = any('UnexpectedEof' in str(a[2]) for bb, t in b.calls() for x in t.get('args', []) for a in origin(b, x).atoms if a[0] == 'agg' and len(a) > 2) or \
+        any(s_['rv'].get('variant') == 'UnexpectedEof' for bb in b.live_blocks() for s_ in b.stmts(bb) if 'assign' in s_ and s_['rv'].get('k') == 'agg')
+    # ... and the slice reader originates its errors through it (or through the io constructors) only: a plain message
+    # error there is an end of input the container reader cannot recognise
+    plain = []
+    for x in f.body_list:
+        fl = fn_label(x)
+        if fl.startswith(('<de::read::SliceRead as de::read::Read>::', '<de::read::SliceRead as de::read::ReadSlice>::', '<de::read::take::SliceReadTake as de::read::Read>::', '<de::read::take::SliceReadTake as de::read::ReadSlice>::')):
+            for bb, t in x.calls():
+                if not x.is_cleanup(bb) and strip_generics(cname(t)).endswith('DeError::new'):
+                    plain.append('%s at %s' % (short_fn(fl), short_loc(t.get('span'))))
+    ctx.ob('IOERR', 'slice-eof-is-an-io-error', io_ and kind and not plain, short_loc(b.span),
+           'DeError::unexpected_eof() carries an io::Error: %s, of kind UnexpectedEof: %s; message-only errors originated by the slice reader: %s' % (io_, kind, plain or 'none'))
 
 
 def endblock(ctx, nx, repl):
